@@ -176,3 +176,67 @@ func factsBroker(repo string, o *out) {
 	}
 	o.def("keepAliveZeroMeansMin", "Bool", "true")
 }
+
+// ---- section brokerack: the acknowledgement follows the effects (property C07) ----------------
+//
+// processSubscribe / processUnsubscribe change the subscription store and the session
+// (topicsMgr.Subscribe + sess.AddTopic, topicsMgr.Unsubscribe + sess.RemoveTopic) and acknowledge
+// with writeMessage(resp).  The broker model performs the effects and the acknowledgement in one
+// atomic step; that is the code only as long as the acknowledgement is written AFTER the last
+// effect - a SUBACK / UNSUBACK that leaves the broker first opens a window in which a PUBLISH of
+// another connection still meets (or does not yet meet) the subscription.  The statement order is a
+// value here (a Bool per function), so that a reordering breaks the bridge lemma
+// Proofs/BrokerAckOrder.facts_ack_after_effects (cited as Properties/C07.C07_ack_follows_effects),
+// not the extractor.
+
+func init() { extraSections = append(extraSections, section{"brokerack", factsBrokerAck}) }
+
+// ackAfterEffects: every top-level statement of fn that contains the call `ack` comes after the
+// last top-level statement that contains one of the calls `effects` (top-level statements of a
+// function body execute in source order; a loop is one statement).
+func ackAfterEffects(fn *ast.FuncDecl, ack string, effects []string) bool {
+	lastEffect, firstAck, seen := -1, -1, map[string]bool{}
+	for i, st := range fn.Body.List {
+		ast.Inspect(st, func(n ast.Node) bool {
+			c, ok := n.(*ast.CallExpr)
+			if !ok {
+				return true
+			}
+			s := exprString(c)
+			if s == ack && firstAck < 0 {
+				firstAck = i
+			}
+			f := exprString(c.Fun)
+			for _, e := range effects {
+				if f == e {
+					seen[e] = true
+					lastEffect = i
+				}
+			}
+			return true
+		})
+	}
+	if firstAck < 0 {
+		die("%s: the acknowledgement %s not found", fn.Name.Name, ack)
+	}
+	for _, e := range effects {
+		if !seen[e] {
+			die("%s: the call %s not found", fn.Name.Name, e)
+		}
+	}
+	return firstAck > lastEffect
+}
+
+func factsBrokerAck(repo string, o *out) {
+	fp := parse(repo, "service/process.go")
+	b := func(v bool) string {
+		if v {
+			return "true"
+		}
+		return "false"
+	}
+	o.def("subscribeAckAfterEffects", "Bool", b(ackAfterEffects(findFunc(fp, "service", "processSubscribe"),
+		"p.writeMessage(resp)", []string{"p.topicsMgr.Subscribe", "p.sess.AddTopic"})))
+	o.def("unsubscribeAckAfterEffects", "Bool", b(ackAfterEffects(findFunc(fp, "service", "processUnsubscribe"),
+		"p.writeMessage(resp)", []string{"p.topicsMgr.Unsubscribe", "p.sess.RemoveTopic"})))
+}
